@@ -54,7 +54,7 @@ def run_case(case):
                        0x5000ABCD, 0x0000ABCD], n)
     files, fattrs = [], []
     for e in eids:
-        pel = dirrun.mk_pel(rng, e, plid=rng.choice(PLIDS + [e]), bmc=rng.choice(BMCS), ref=rng.choice(dirrun.REFS),
+        pel = dirrun.mk_pel(rng, e, plid=rng.choice(PLIDS + [e]), bmc=rng.choice(BMCS), ref=rng.choice(dirrun.REFS + dirrun.REFS + dirrun.REFS_LONG),
                             sev=rng.choice([0x40, 0x00, 0x20, 0x51]), flags=rng.choice([0x2000, 0x6000, 0x0000, 0x8000]),
                             creator=rng.choice(['O', 'B']), lead=True)
         nm = '%s_%08X' % (rng.choice(['2023030818402711', '2024', 'x']), e)
@@ -84,7 +84,10 @@ def run_case(case):
             q.update(s=project.cp(s), spelling=s)
             argv = ['--src', s]
         else:
-            codes = rng.sample(dirrun.REFS, rng.randint(0, 3))
+            # the file names whole reference codes, one per line
+            present = sorted({''.join(map(chr, a['ref'])) for a in fattrs if a['ref']})
+            pool = dirrun.REFS + dirrun.REFS_LONG + present + present
+            codes = rng.sample(pool, rng.randint(0, 4))
             path = os.path.join(os.path.dirname(d), 'exclude.txt')
             with open(path, 'w') as f:
                 f.write(''.join(c + '\n' for c in codes))
